@@ -131,6 +131,7 @@ def main():
     ap.add_argument('--replay')
     ap.add_argument('--quiet', action='store_true')
     ap.add_argument('--procs', type=int, default=0)
+    ap.add_argument('--list', action='store_true', help='list candidate violation keys without replaying (debugging)')
     ap.add_argument('--only', help='restrict to shards whose repr contains this string (debugging; evidence is marked partial)')
     ns = ap.parse_args()
     if os.environ.get('VERIF_TIER') in ('quick', 'thorough'):
@@ -200,6 +201,15 @@ def main():
     seen_keys = set()
     os.makedirs(os.path.join(HERE, 'replays', pid), exist_ok=True)
     cands = sorted(merged.violations, key=lambda v: (len(json.dumps(v['witness'])), v['key']))
+    if ns.list:
+        import collections
+        cnt = collections.Counter(v['key'] for v in cands)
+        first = {}
+        for v in cands:
+            first.setdefault(v['key'], v)
+        for k, n in sorted(cnt.items()):
+            print('CANDIDATE x{} {} :: {}'.format(n, k, first[k]['what'][:300]))
+        cands = []
     for v in cands:
         if v['key'] in seen_keys:
             continue
